@@ -9,7 +9,7 @@ THEOREMS = ["H5V.Props.C11." + t for t in [
     "C11_step_refines", "C11_run_refines", "C11_reachable_wf", "C11_independent",
     "C11_checked_pop_front", "C11_checked_pop_back", "C11_checked_subtendril", "C11_push_checked",
     "C11_format_valid", "C11_no_ub", "C11_no_spurious_panic",
-    "C11_witness_oflow_2gib", "C11_witness_wtf8_validate",
+    "C11_witness_oflow_2gib", "C11_wtf8_validate_rejects_stray", "C11_witness_wtf8_validate_pinned",
     "laws_bytes", "laws_ascii", "laws_latin1",
 ]] + ["H5V.Lemmas.Tendril.Utf8." + t for t in [
     "laws_utf8", "C11_utf8_valid", "utf8_valid_append", "utf8_suffix_exact", "utf8_prefix_exact",
@@ -31,10 +31,12 @@ ASSUMPTIONS = [
     "the model panics only where the owned-string specification does (C11_no_spurious_panic); at 2^31 a push that "
     "needs growth panics with OFLOW although the documented limit is 4 GB (C11_witness_oflow_2gib, confirmed on the "
     "real code outside the protocol) — outside the tested range",
-    "the refinement theorems are proved for Bytes, ASCII, Latin1 and UTF8 (Laws instances). WTF-8 is excluded: "
-    "WTF8::validate accepts ill-formed input (C11_witness_wtf8_validate; reported by the oracle as a defect), and its "
-    "surrogate fix-up has no proved laws; WTF-8 is covered by C12's safety theorems, the correspondence and the "
-    "Python reference only",
+    "the refinement theorems are proved for Bytes, ASCII, Latin1 and UTF8 (Laws instances). WTF-8 is not an instance "
+    "of Laws (its concatenation has the surrogate fix-up, the specification of Laws is plain append); it is covered "
+    "by C12's safety theorems, the correspondence and the Python reference. The defect this check found in "
+    "WTF8::validate (stray continuation byte accepted; C11_witness_wtf8_validate_pinned) is fixed in /repo "
+    "(218f57f) and the model follows the fix (C11_wtf8_validate_rejects_stray); corpus/C11/wtf8_validate.case is "
+    "the regression corpus",
     "refcount overflow (2^64 clones; Atomic::increment does not check) is out of scope",
 ]
 RULE = ("op histories over a pool of 4 tendrils, 5 formats × {NonAtomic, Atomic}: exhaustive cover = every op "
